@@ -50,3 +50,213 @@ package jsonapi
 //@ loop 1 invariant attrs: forall k string :: k in sr.Type.Attrs ==> (exists j int :: 0 <= j && j < len(fields) && fields[j] == k)
 //@ loop 1 invariant rels-so-far: forall k string :: visited(k) ==> (exists j int :: 0 <= j && j < len(fields) && fields[j] == k)
 //@ loop 1 invariant only-fields: forall j int :: 0 <= j && j < len(fields) ==> srIsField(sr, fields[j])
+
+//@ spec isZeroRel(v any, r Rel) = relTyped(v, r) && (r.ToOne ==> str(v) == "") && (!r.ToOne ==> len(sl(v)) == 0)
+//@ spec dataKept(sr *SoftResource) = forall k string :: k in old(mapdom(sr.data)) && srIsField(sr, k) ==> k in sr.data && sr.data[k] == old(mapval(sr.data))[k]
+//@ spec dataNewZero(sr *SoftResource) = forall k string :: k in sr.data && !(k in old(mapdom(sr.data))) ==> (k in sr.Type.Attrs ==> isZeroVal(sr.data[k], sr.Type.Attrs[k].Type, sr.Type.Attrs[k].Nullable)) && (!(k in sr.Type.Attrs) ==> k in sr.Type.Rels && isZeroRel(sr.data[k], sr.Type.Rels[k]))
+//@ spec typeKept(sr *SoftResource) = old(sr.Type) != nil ==> sr.Type == old(sr.Type) && sr.Type.Name == old(sr.Type.Name) && sr.Type.NewFunc == old(sr.Type.NewFunc) && (old(sr.Type.Attrs) != nil ==> sr.Type.Attrs == old(sr.Type.Attrs)) && (old(sr.Type.Rels) != nil ==> sr.Type.Rels == old(sr.Type.Rels))
+
+//@ func SoftResource.check
+//@ props C17 C19
+//@ requires nonnil: sr != nil
+//@ requires wf: srTypeWf(sr)
+//@ modifies obj[SoftResource](sr), obj[Type](sr.Type), map[map[string]any](sr.data), new[Type], new[map[string]any], new[map[string]Attr], new[map[string]Rel], new[time.Time], new[uint8], new[string]
+//@ ensures ready: srReady(sr)
+//@ ensures type-kept: typeKept(sr)
+//@ ensures fresh-type: old(sr.Type) == nil ==> fresh(sr.Type) && fresh(sr.Type.Attrs) && fresh(sr.Type.Rels)
+//@ ensures fresh-maps: (old(sr.Type) != nil && old(sr.Type.Attrs) == nil ==> fresh(sr.Type.Attrs)) && (old(sr.Type) != nil && old(sr.Type.Rels) == nil ==> fresh(sr.Type.Rels))
+//@ ensures new-type-empty: old(sr.Type) == nil ==> sr.Type.Name == "" && (forall k string :: !(k in sr.Type.Attrs)) && (forall k string :: !(k in sr.Type.Rels))
+//@ ensures new-attrs-empty: old(sr.Type) != nil && old(sr.Type.Attrs) == nil ==> (forall k string :: !(k in sr.Type.Attrs))
+//@ ensures new-rels-empty: old(sr.Type) != nil && old(sr.Type.Rels) == nil ==> (forall k string :: !(k in sr.Type.Rels))
+//@ ensures data-ref: old(sr.data) != nil ==> sr.data == old(sr.data)
+//@ ensures fresh-data: old(sr.data) == nil ==> fresh(sr.data)
+//@ ensures id-meta: sr.id == old(sr.id) && sr.meta == old(sr.meta)
+//@ ensures wf: srTypeWf(sr)
+//@ ensures filled-attrs: forall k string :: k in sr.Type.Attrs ==> k in sr.data
+//@ ensures filled-rels: forall k string :: k in sr.Type.Rels ==> k in sr.data
+//@ ensures kept: dataKept(sr)
+//@ ensures new-are-zero: dataNewZero(sr)
+//@ loop 0 invariant refs: srReady(sr) && sr.Type == pre(sr.Type) && *sr.Type == pre(*sr.Type) && sr.data == pre(sr.data) && sr.id == pre(sr.id) && sr.meta == pre(sr.meta) && othersSame(sr.data)
+//@ loop 0 invariant filled-so-far: forall k string :: visited(k) ==> k in sr.data
+//@ loop 0 invariant kept: forall k string :: k in pre(mapdom(sr.data)) ==> k in sr.data && sr.data[k] == pre(mapval(sr.data))[k]
+//@ loop 0 invariant new-are-zero: forall k string :: k in sr.data && !(k in pre(mapdom(sr.data))) ==> k in sr.Type.Attrs && isZeroVal(sr.data[k], sr.Type.Attrs[k].Type, sr.Type.Attrs[k].Nullable)
+//@ loop 1 invariant refs: srReady(sr) && sr.Type == pre(sr.Type) && *sr.Type == pre(*sr.Type) && sr.data == pre(sr.data) && sr.id == pre(sr.id) && sr.meta == pre(sr.meta) && othersSame(sr.data)
+//@ loop 1 invariant filled-so-far: forall k string :: visited(k) ==> k in sr.data
+//@ loop 1 invariant kept: forall k string :: k in pre(mapdom(sr.data)) ==> k in sr.data && sr.data[k] == pre(mapval(sr.data))[k]
+//@ loop 1 invariant new-are-zero: forall k string :: k in sr.data && !(k in pre(mapdom(sr.data))) ==> !(k in sr.Type.Attrs) && k in sr.Type.Rels && isZeroRel(sr.data[k], sr.Type.Rels[k])
+//@ loop 1 invariant attrs-filled: forall k string :: k in sr.Type.Attrs ==> k in pre(mapdom(sr.data))
+//@ loop 2 invariant refs: srReady(sr) && sr.Type == pre(sr.Type) && *sr.Type == pre(*sr.Type) && sr.data == pre(sr.data) && sr.id == pre(sr.id) && sr.meta == pre(sr.meta) && othersSame(sr.data)
+//@ loop 2 invariant fields-kept: forall k string :: k in pre(mapdom(sr.data)) && srIsField(sr, k) ==> k in sr.data
+//@ loop 2 invariant nothing-new: forall k string :: k in sr.data ==> k in pre(mapdom(sr.data)) && sr.data[k] == pre(mapval(sr.data))[k]
+//@ loop 3 invariant found-iff: found == (exists j int :: 0 <= j && j <= $idx && fields[j] == k)
+
+// What every method that starts with check() leaves behind (restated because a
+// caller only sees its callee's contract).
+//@ spec srShape(sr *SoftResource) = srReady(sr) && typeKept(sr) && (old(sr.data) != nil ==> sr.data == old(sr.data)) && srTypeWf(sr)
+//@ spec srChecked(sr *SoftResource) = srReady(sr) && typeKept(sr) && (old(sr.data) != nil ==> sr.data == old(sr.data)) && srTypeWf(sr) && (forall k string :: srIsField(sr, k) ==> k in sr.data)
+
+//@ func SoftResource.GetID
+//@ props C17 C19
+//@ requires nonnil: sr != nil
+//@ requires wf: srTypeWf(sr)
+//@ modifies obj[SoftResource](sr), obj[Type](sr.Type), map[map[string]any](sr.data), new[Type], new[map[string]any], new[map[string]Attr], new[map[string]Rel], new[time.Time], new[uint8], new[string]
+//@ ensures id: result == old(sr.id) && sr.id == old(sr.id)
+//@ ensures checked: srChecked(sr)
+//@ ensures kept: dataKept(sr)
+//@ ensures new-are-zero: dataNewZero(sr)
+
+//@ func SoftResource.SetID
+//@ props C17
+//@ requires nonnil: sr != nil
+//@ requires wf: srTypeWf(sr)
+//@ modifies obj[SoftResource](sr), obj[Type](sr.Type), map[map[string]any](sr.data), new[Type], new[map[string]any], new[map[string]Attr], new[map[string]Rel], new[time.Time], new[uint8], new[string]
+//@ ensures id: sr.id == id
+//@ ensures checked: srChecked(sr)
+//@ ensures kept: dataKept(sr)
+//@ ensures new-are-zero: dataNewZero(sr)
+
+//@ func SoftResource.Attrs
+//@ props C17
+//@ requires nonnil: sr != nil
+//@ requires wf: srTypeWf(sr)
+//@ modifies obj[SoftResource](sr), obj[Type](sr.Type), map[map[string]any](sr.data), new[Type], new[map[string]any], new[map[string]Attr], new[map[string]Rel], new[time.Time], new[uint8], new[string]
+//@ ensures result: result == sr.Type.Attrs && result != nil
+//@ ensures checked: srChecked(sr)
+//@ ensures kept: dataKept(sr)
+//@ ensures new-are-zero: dataNewZero(sr)
+//@ ensures id: sr.id == old(sr.id)
+
+//@ func SoftResource.Rels
+//@ props C17
+//@ requires nonnil: sr != nil
+//@ requires wf: srTypeWf(sr)
+//@ modifies obj[SoftResource](sr), obj[Type](sr.Type), map[map[string]any](sr.data), new[Type], new[map[string]any], new[map[string]Attr], new[map[string]Rel], new[time.Time], new[uint8], new[string]
+//@ ensures result: result == sr.Type.Rels && result != nil
+//@ ensures checked: srChecked(sr)
+//@ ensures kept: dataKept(sr)
+//@ ensures new-are-zero: dataNewZero(sr)
+//@ ensures id: sr.id == old(sr.id)
+
+//@ func SoftResource.GetType
+//@ props C17
+//@ requires nonnil: sr != nil
+//@ requires wf: srTypeWf(sr)
+//@ modifies obj[SoftResource](sr), obj[Type](sr.Type), map[map[string]any](sr.data), new[Type], new[map[string]any], new[map[string]Attr], new[map[string]Rel], new[time.Time], new[uint8], new[string]
+//@ ensures result: result == *sr.Type
+//@ ensures checked: srChecked(sr)
+//@ ensures kept: dataKept(sr)
+//@ ensures new-are-zero: dataNewZero(sr)
+//@ ensures id: sr.id == old(sr.id)
+
+// Get: the value most recently stored for the field, else the kind's zero value;
+// the id for "id"; nil for anything that is not a field.
+//@ func SoftResource.Get
+//@ props C17 C19 C05
+//@ requires nonnil: sr != nil
+//@ requires wf: srTypeWf(sr)
+//@ modifies obj[SoftResource](sr), obj[Type](sr.Type), map[map[string]any](sr.data), new[Type], new[map[string]any], new[map[string]Attr], new[map[string]Rel], new[time.Time], new[uint8], new[string]
+//@ ensures id: key == "id" ==> result == box(old(sr.id))
+//@ ensures stored: key != "id" && srIsField(sr, key) && key in old(mapdom(sr.data)) ==> result == old(mapval(sr.data))[key]
+//@ ensures zero-attr: key != "id" && key in sr.Type.Attrs && !(key in old(mapdom(sr.data))) ==> isZeroVal(result, sr.Type.Attrs[key].Type, sr.Type.Attrs[key].Nullable)
+//@ ensures zero-rel: key != "id" && !(key in sr.Type.Attrs) && key in sr.Type.Rels && !(key in old(mapdom(sr.data))) ==> isZeroRel(result, sr.Type.Rels[key])
+//@ ensures not-a-field: key != "id" && !srIsField(sr, key) ==> result == nil
+//@ ensures current: key != "id" && srIsField(sr, key) ==> result == sr.data[key]
+//@ ensures checked: srChecked(sr)
+//@ ensures kept: dataKept(sr)
+//@ ensures new-are-zero: dataNewZero(sr)
+//@ ensures same-id: sr.id == old(sr.id)
+
+// Set: stores well-typed values, maps untyped nil to the typed nil of a nullable
+// kind, ignores everything else; other fields keep their value.
+//@ spec setsAttr(v any, a Attr) = dyn(v) == goTag(a.Type, a.Nullable)
+//@ func SoftResource.Set
+//@ props C17 C19 C05
+//@ requires nonnil: sr != nil
+//@ requires wf: srTypeWf(sr)
+//@ modifies obj[SoftResource](sr), obj[Type](sr.Type), map[map[string]any](sr.data), new[Type], new[map[string]any], new[map[string]Attr], new[map[string]Rel], new[time.Time], new[uint8], new[string]
+//@ ensures set-id: key == "id" ==> sr.id == ite(dyn(v) == type[string], str(v), "")
+//@ ensures keep-id: key != "id" ==> sr.id == old(sr.id)
+//@ ensures set-attr: key != "id" && key in sr.Type.Attrs && setsAttr(v, sr.Type.Attrs[key]) ==> sr.data[key] == v
+//@ ensures set-attr-nil: key != "id" && key in sr.Type.Attrs && !setsAttr(v, sr.Type.Attrs[key]) && v == nil && sr.Type.Attrs[key].Nullable ==> isZeroVal(sr.data[key], sr.Type.Attrs[key].Type, true)
+//@ ensures set-rel: key != "id" && !(key in sr.Type.Attrs) && key in sr.Type.Rels && relTyped(v, sr.Type.Rels[key]) ==> sr.data[key] == v
+//@ ensures ignored-attr: key != "id" && key in sr.Type.Attrs && !setsAttr(v, sr.Type.Attrs[key]) && !(v == nil && sr.Type.Attrs[key].Nullable) && key in old(mapdom(sr.data)) ==> sr.data[key] == old(mapval(sr.data))[key]
+//@ ensures ignored-rel: key != "id" && !(key in sr.Type.Attrs) && key in sr.Type.Rels && !relTyped(v, sr.Type.Rels[key]) && key in old(mapdom(sr.data)) ==> sr.data[key] == old(mapval(sr.data))[key]
+//@ ensures others: forall k string :: k != key && srIsField(sr, k) && k in old(mapdom(sr.data)) ==> k in sr.data && sr.data[k] == old(mapval(sr.data))[k]
+//@ ensures others-new: forall k string :: k != key && k in sr.data && !(k in old(mapdom(sr.data))) ==> (k in sr.Type.Attrs ==> isZeroVal(sr.data[k], sr.Type.Attrs[k].Type, sr.Type.Attrs[k].Nullable)) && (!(k in sr.Type.Attrs) ==> k in sr.Type.Rels && isZeroRel(sr.data[k], sr.Type.Rels[k]))
+//@ ensures checked: srChecked(sr)
+//@ ensures typed: old(sr.Type != nil && sr.data != nil && srTyped(sr)) ==> srTyped(sr)
+
+//@ func SoftResource.AddAttr
+//@ flag absolute-quantifiers
+//@ props C17 C19
+//@ requires nonnil: sr != nil
+//@ requires wf: srTypeWf(sr)
+//@ requires arg: attr.Name != "" && validKind(attr.Type)
+//@ modifies obj[SoftResource](sr), obj[Type](sr.Type), map[map[string]any](sr.data), map[map[string]Attr](sr.Type.Attrs), new[Type], new[map[string]any], new[map[string]Attr], new[map[string]Rel], new[time.Time], new[uint8], new[string]
+//@ ensures added-if-free: !old(sr.Type != nil && (attr.Name in sr.Type.Attrs || attr.Name in sr.Type.Rels)) ==> attr.Name in sr.Type.Attrs && sr.Type.Attrs[attr.Name] == attr
+//@ ensures kept-if-taken: old(sr.Type != nil && attr.Name in sr.Type.Attrs) ==> sr.Type.Attrs[attr.Name] == old(sr.Type.Attrs[attr.Name])
+//@ ensures others: forall k string :: k != attr.Name ==> (k in sr.Type.Attrs) == old(sr.Type != nil && k in sr.Type.Attrs) && (k in sr.Type.Attrs ==> sr.Type.Attrs[k] == old(sr.Type.Attrs[k]))
+//@ ensures shape: srShape(sr)
+//@ ensures kept: forall k string :: k != attr.Name && k in old(mapdom(sr.data)) && srIsField(sr, k) ==> k in sr.data && sr.data[k] == old(mapval(sr.data))[k]
+//@ ensures id: sr.id == old(sr.id)
+//@ loop 0 invariant not-yet: forall j int :: 0 <= j && j <= $idx ==> $range[j] != attr.Name
+
+//@ func SoftResource.AddRel
+//@ flag absolute-quantifiers
+//@ props C17 C19
+//@ requires nonnil: sr != nil
+//@ requires wf: srTypeWf(sr)
+//@ requires arg: rel.FromName != "" && rel.ToType != ""
+//@ modifies obj[SoftResource](sr), obj[Type](sr.Type), map[map[string]any](sr.data), map[map[string]Rel](sr.Type.Rels), new[Type], new[map[string]any], new[map[string]Attr], new[map[string]Rel], new[time.Time], new[uint8], new[string]
+//@ ensures added-if-free: !old(sr.Type != nil && (rel.FromName in sr.Type.Attrs || rel.FromName in sr.Type.Rels)) ==> rel.FromName in sr.Type.Rels && sr.Type.Rels[rel.FromName] == rel
+//@ ensures others: forall k string :: k != rel.FromName ==> (k in sr.Type.Rels) == old(sr.Type != nil && k in sr.Type.Rels) && (k in sr.Type.Rels ==> sr.Type.Rels[k] == old(sr.Type.Rels[k]))
+//@ ensures shape: srShape(sr)
+//@ ensures kept: forall k string :: k != rel.FromName && k in old(mapdom(sr.data)) && srIsField(sr, k) ==> k in sr.data && sr.data[k] == old(mapval(sr.data))[k]
+//@ ensures id: sr.id == old(sr.id)
+//@ loop 0 invariant not-yet: forall j int :: 0 <= j && j <= $idx ==> $range[j] != rel.FromName
+
+//@ func SoftResource.RemoveField
+//@ props C17
+//@ requires nonnil: sr != nil
+//@ requires wf: srTypeWf(sr)
+//@ modifies obj[SoftResource](sr), obj[Type](sr.Type), map[map[string]any](sr.data), map[map[string]Attr](sr.Type.Attrs), map[map[string]Rel](sr.Type.Rels), new[Type], new[map[string]any], new[map[string]Attr], new[map[string]Rel], new[time.Time], new[uint8], new[string]
+//@ ensures removed: !(field in sr.Type.Attrs) && !(field in sr.Type.Rels)
+//@ ensures others: forall k string :: k != field ==> (k in sr.Type.Attrs) == old(sr.Type != nil && k in sr.Type.Attrs) && (k in sr.Type.Rels) == old(sr.Type != nil && k in sr.Type.Rels)
+//@ ensures wf: srTypeWf(sr)
+
+//@ func SoftResource.Attr
+//@ props C17
+//@ requires nonnil: sr != nil
+//@ requires wf: srTypeWf(sr)
+//@ modifies obj[SoftResource](sr), obj[Type](sr.Type), map[map[string]any](sr.data), new[Type], new[map[string]any], new[map[string]Attr], new[map[string]Rel], new[time.Time], new[uint8], new[string]
+//@ ensures found: key in sr.Type.Attrs ==> result == sr.Type.Attrs[key]
+//@ ensures missing: !(key in sr.Type.Attrs) ==> result == zero(type[Attr])
+//@ ensures checked: srChecked(sr)
+
+//@ func SoftResource.Rel
+//@ props C17
+//@ requires nonnil: sr != nil
+//@ requires wf: srTypeWf(sr)
+//@ modifies obj[SoftResource](sr), obj[Type](sr.Type), map[map[string]any](sr.data), new[Type], new[map[string]any], new[map[string]Attr], new[map[string]Rel], new[time.Time], new[uint8], new[string]
+//@ ensures found: key in sr.Type.Rels ==> result == sr.Type.Rels[key]
+//@ ensures missing: !(key in sr.Type.Rels) ==> result == zero(type[Rel])
+//@ ensures checked: srChecked(sr)
+
+// ---- copies (C18) ----
+
+//@ func Type.Copy
+//@ props C18 C17
+//@ modifies new[map[string]Attr], new[map[string]Rel]
+//@ ensures name: result.Name == t.Name && result.NewFunc == t.NewFunc
+//@ ensures fresh: fresh(result.Attrs) && fresh(result.Rels) && result.Attrs != nil && result.Rels != nil && result.Attrs != t.Attrs && result.Rels != t.Rels
+//@ ensures same-attrs: forall k string :: (k in result.Attrs) == (k in t.Attrs) && (k in t.Attrs ==> result.Attrs[k] == t.Attrs[k])
+//@ ensures same-rels: forall k string :: (k in result.Rels) == (k in t.Rels) && (k in t.Rels ==> result.Rels[k] == t.Rels[k])
+//@ loop 0 invariant maps: ctyp.Attrs != nil && fresh(ctyp.Attrs) && ctyp.Rels != nil && fresh(ctyp.Rels) && ctyp.Attrs != ctyp.Rels && ctyp.Name == t.Name
+//@ loop 0 invariant frame: othersSame(ctyp.Attrs)
+//@ loop 0 invariant copied: forall k string :: visited(k) ==> k in ctyp.Attrs && ctyp.Attrs[k] == t.Attrs[k]
+//@ loop 0 invariant only: forall k string :: k in ctyp.Attrs ==> k in t.Attrs && ctyp.Attrs[k] == t.Attrs[k]
+//@ loop 1 invariant maps: ctyp.Attrs != nil && fresh(ctyp.Attrs) && ctyp.Rels != nil && fresh(ctyp.Rels) && ctyp.Attrs != ctyp.Rels && ctyp.Name == t.Name
+//@ loop 1 invariant frame: othersSame(ctyp.Rels)
+//@ loop 1 invariant attrs-done: forall k string :: (k in ctyp.Attrs) == (k in t.Attrs) && (k in t.Attrs ==> ctyp.Attrs[k] == t.Attrs[k])
+//@ loop 1 invariant copied: forall k string :: visited(k) ==> k in ctyp.Rels && ctyp.Rels[k] == t.Rels[k]
+//@ loop 1 invariant only: forall k string :: k in ctyp.Rels ==> k in t.Rels && ctyp.Rels[k] == t.Rels[k]
